@@ -330,7 +330,7 @@ def check_verify_loop(cfg, w, rep, lf, recv_open, _depth=0, _key=None):
             # the helper's own success must be required (`?`) before the check
             def is_helper(o, ht=ht):
                 return o.kind == "call" and o.term is ht and o.path in AWAIT_PATHS
-            gts = try_gates(prog, body, is_helper)
+            gts = try_gates(prog, body, is_helper) + match_gates(prog, body, is_helper, "Ok")
             chk_blocks = [blk.i for b, blk, t, g in prog.local_calls(lf) if b is body and g.outer.name == "check"]
             if gts and not unreachable_without(prog, body, gts, chk_blocks):
                 return check_verify_loop(cfg, w, rep, hg, recv_open, _depth + 1, key)
